@@ -693,8 +693,15 @@ def write_evidence(prop, tier, seed, P, jobs, results, violations, known, inconc
             "distinct_nontrivial": len(nontrivial),
             "rule": "one evaluation = one bounded symbolic query (Kani harness -> CBMC -> SAT, or MIR slice -> SMT) decided "
                     "by the solver for ALL inputs inside the stated bound; non-trivial = verdict SUCCESSFUL with >=1 CBMC "
-                    "property checked and every kani::cover! vacuity witness SATISFIED; distinct = distinct harness",
+                    "property checked and every kani::cover! vacuity witness SATISFIED; distinct = distinct harness. "
+                    "states = symbolic execution steps of all decided harnesses (+ SMT queries of Engine B); transitions = verification conditions "
+                    "generated by CBMC (+ arithmetic sites decided by Engine B); traces_validated_against_impl = counterexample traces replayed natively "
+                    "against the real build in this run (0 on a run without failed checks)",
             "samples": samples[:40] or [{"obligation": j["h"], "verdict": "not decided"} for j in jobs[:5]],
+            # the level's own keys (model_checking): measured on this run, see `rule`
+            "states": tot["steps"] + sum(len(r.get("queries") or []) for r in results.values()),
+            "transitions": tot["vccs"] + sum(r.get("n_checks", 0) for r in results.values() if r.get("queries")),
+            "traces_validated_against_impl": sum(len(r.get("replay", [])) for r in results.values()) + sum(len(r.get("replays", [])) for r in results.values()),
             "exhaustive": False,
             "technique": "bounded symbolic execution of the compiled Rust code (Kani 0.68 / CBMC 6.11, CaDiCaL) and "
                          "MIR->SMT-LIB2 (z3, cvc5) for 64 KiB arithmetic kernels",
